@@ -515,7 +515,7 @@ async fn main() -> Result<()> {
     if cli.watch {
         // Watch mode - continuous sync on file changes
         let watch_mode = WatchMode::new(
-            engine,
+            engine.unattended(),
             source.path().to_path_buf(),
             destination.path().to_path_buf(),
             Duration::from_millis(500), // 500ms debounce
